@@ -208,16 +208,17 @@ Theorem C03_step_rename_replace_partial : forall (s : fsys) (sv : sview) (wo : l
   proj_res Linux (snd (rename s (sv_view sv) o p)) = snd (go_rename s sv o p).
 Proof. exact dstep_rename_replace_result. Qed.
 
-(* Chown / Lchown by a non-administrator: where the path resolves and the kernel refuses the change (EPERM), so does
-   MemFS - which refuses ALL such calls, before resolving the path (C03-CHOWN-NONROOT, C03-ERRNO-PRIORITY) *)
-Theorem C03_step_chown_refused_partial : forall (slm : slmode) (s : fsys) (sv : sview) (p : str) (uid gid : Z)
-    (par : nat) (kind : lastk) (name : str) (n : nat) (nd : node),
-  us_admin (v_user (sv_view sv)) = false -> v_idm (sv_view sv) = true ->
-  klookup s sv false (follow_of slm) p = WNode par kind name n -> get (f_heap s) n = Some nd ->
-  chown_refused (node_meta nd) (v_user (sv_view sv)) uid gid = true ->
-  (fst (chown_gen slm s (sv_view sv) p uid gid), proj_res Linux (snd (chown_gen slm s (sv_view sv) p uid gid)))
-  = k_chown (follow_of slm) s sv p uid gid.
-Proof. exact dstep_chown_refused. Qed.
+(* Chown / Lchown, any user, on a file system with an identity manager: the path is resolved first; the administrator may
+   do anything, the owner may change the group to its own (not the owner), anybody may pass (-1,-1), everything else is
+   EPERM; the set-id bits of a non-directory are cleared.  (Until Chown/Lchown were repaired MemFS refused every call of a
+   non-administrator before resolving the path: deviation C03-CHOWN-NONROOT, and only [C03_step_chown_refused_partial] - the
+   kernel refuses too - could be stated.) *)
+Theorem C03_step_chown : forall (slm : slmode) (s : fsys) (sv : sview) (cs : list str) (uid gid : Z),
+  dac_hyps s sv -> path_ok s sv slm cs -> v_idm (sv_view sv) = true ->
+  (fst (chown_gen slm s (sv_view sv) (abs_path cs) uid gid),
+   proj_res Linux (snd (chown_gen slm s (sv_view sv) (abs_path cs) uid gid)))
+  = k_chown (follow_of slm) s sv (abs_path cs) uid gid.
+Proof. exact dstep_chown. Qed.
 
 (* the step theorem at the level of worlds, and for histories (induction over call lists): [dcovered] collects the
    hypotheses above per call *)
@@ -395,6 +396,35 @@ Example C03_example_rename_same :
   /\ snd (go_rename DacTree.dfs (DacTree.svu DacTree.carol 18) o o) = SOk
   /\ kperm DacTree.dtree 4 2 DacTree.carol = false.
 Proof. exact DacTree.rename_same_no_permission. Qed.
+
+(* Rename(/t, /t/g) by alice in a sticky / where /t is bob's: EINVAL on both sides, decided before the sticky bit, which
+   refuses Rename(/t, /g) with EPERM (rename(2): the ancestor test precedes may_delete) *)
+Example C03_example_rename_into_itself :
+  let o := abs_path [DacTree.n_t] in
+  let p := abs_path ([DacTree.n_t] ++ [DacTree.n_g]) in
+  let q := abs_path [DacTree.n_g] in
+  (fst (rename DacTree.ifs (DacTree.view_of DacTree.alice 18) o p),
+   proj_res Linux (snd (rename DacTree.ifs (DacTree.view_of DacTree.alice 18) o p)))
+  = go_rename DacTree.ifs (DacTree.svu DacTree.alice 18) o p
+  /\ snd (go_rename DacTree.ifs (DacTree.svu DacTree.alice 18) o p) = SErr EINVAL
+  /\ (fst (rename DacTree.ifs (DacTree.view_of DacTree.alice 18) o q),
+      proj_res Linux (snd (rename DacTree.ifs (DacTree.view_of DacTree.alice 18) o q)))
+     = go_rename DacTree.ifs (DacTree.svu DacTree.alice 18) o q
+  /\ snd (go_rename DacTree.ifs (DacTree.svu DacTree.alice 18) o q) = SErr EPERM.
+Proof. exact DacTree.rename_into_itself_first. Qed.
+
+(* Chown by ordinary users: alice gives her /e/q (group 2000) to her own group - allowed, both sides, the step theorem
+   applies; giving it to bob is EPERM; bob's Chown(/h/f,-1,-1) is allowed (the former deviation C03-CHOWN-NONROOT) *)
+Example C03_example_chown_nonroot :
+  (fst (chown_gen SlEval DacTree.dfs (DacTree.view_of DacTree.alice 18) (abs_path [DacTree.n_e; DacTree.n_q]) (-1) 1000),
+   proj_res Linux (snd (chown_gen SlEval DacTree.dfs (DacTree.view_of DacTree.alice 18) (abs_path [DacTree.n_e; DacTree.n_q]) (-1) 1000)))
+  = k_chown true DacTree.dfs (DacTree.svu DacTree.alice 18) (abs_path [DacTree.n_e; DacTree.n_q]) (-1) 1000
+  /\ snd (k_chown true DacTree.dfs (DacTree.svu DacTree.alice 18) (abs_path [DacTree.n_e; DacTree.n_q]) (-1) 1000) = SOk
+  /\ meta_at (f_heap (fst (k_chown true DacTree.dfs (DacTree.svu DacTree.alice 18) (abs_path [DacTree.n_e; DacTree.n_q]) (-1) 1000))) 8
+     = Some (DacTree.mk 420 1000 1000)
+  /\ snd (k_chown true DacTree.dfs (DacTree.svu DacTree.alice 18) (abs_path [DacTree.n_e; DacTree.n_q]) 1001 (-1)) = SErr EPERM
+  /\ snd (k_chown true DacTree.dfs (DacTree.svu DacTree.bob 18) (abs_path [DacTree.n_h; DacTree.n_f]) (-1) (-1)) = SOk.
+Proof. exact DacTree.chown_owner_group. Qed.
 
 (* the administrator theorem applies to the initial world of MemFS *)
 Example C03_example_admin : forall um c, call_view (init_world_linux um) c = 0 ->
